@@ -82,10 +82,16 @@ def sym(ctx, cfg):
 
     doc, runs_el, expected = [], [], []
     for ri, run in enumerate(shape):
+        # base name = opaque stem + one symbolic last character (letter or digit, possibly one of the
+        # extension's own letters) + optionally the extension itself
         ends = ctx.fresh_bool("base_name_has_ext")
-        base = items.atom(name="run%d" % ri, endswith={".mzML": ends})
+        has_ext = ends is True or (ends is not False and bool(ends))
+        zl = z3.Int("run%d_lastchar" % ri)
+        ctx.assume(z3.Or(z3.And(zl >= 48, zl <= 57), z3.And(zl >= 65, zl <= 90), z3.And(zl >= 97, zl <= 122)))
+        stem = items.atom(name="run%d_" % ri, tail_not_in=".mzML")
+        base = items.TStr(stem + items.residue(SNum(zl, (48, 122))) + (".mzML" if has_ext else ""))
         jrun = dict(base_name=ST(base), raw_data=".mzML", spectra=[])
-        fname = base if (ends is True or (ends is not False and bool(ends))) else base + ".mzML"
+        fname = base if has_ext else base + ".mzML"
         spectra_el = []
         for si, nhits in enumerate(run):
             a_scan, v_scan = numatom("scan", lo=1, hi=10 ** 6)
